@@ -11,7 +11,8 @@ from . import core
 from .core import hx, codes, ROOT, canon
 from .p_parser import file_bytes
 
-SECS = [None, "", "A", "[A]", "B", "C c", "AB", "[AB]"]       # bare and bracketed forms; names that are prefixes of each other
+LONGSEC = "L" * 255 + "ong" + "g" * 42            # a section name of 300 bytes (and one that agrees with it in the first 255)
+SECS = [None, "", "A", "[A]", "B", "C c", "AB", "[AB]", LONGSEC, "[" + LONGSEC + "]", LONGSEC[:255]]       # bare and bracketed forms; names that are prefixes of each other
 KEYS = ["x", "y", "z", "k1", "k2", "k12", "xx", "_none_"]       # (the last one: the text the library uses for unused slots - a key like any other)
 VALS = ["v", "a b", "", "12", "x=y", "v\n w", "true", "No", "v\n w\n\tx y", "0x10", "_none_", "[A]", "100%", "%s%%", "caf\xc3\xa9", "3 \xe2\x82\xac"]
 FILES = ["/f1.conf", "/f2.conf", "/usr/etc/cfg.conf", "/etc/cfg.conf", "/usr/etc/cfg.conf.d/a.conf", "/usr/etc/cfg.conf.d/b.conf",
